@@ -746,7 +746,18 @@ def run(tier, seed):
     if not failing and not probe_bad:
         from .. import deleg_part as DP
         from . import C15
-        dn, dpayload = DP.run_part("C05", "deleg05", [C15.gen_case(rng) for _ in range(40 if tier == "quick" else 300)], seed,
+        def arms_of_m2():
+            # T::m2 has all four arms (Return / Answer, Unmock: real2 registered at its own unmock_with position, default body): each response
+            # kind must take ITS arm, in strict and partial mocks, on the original and on a clone
+            out = []
+            for ops in ([("unm",)], [("dfl",)], [("ret", 5)], [("ans", 6)], [("unm",), ("n", 1), ("then",), ("dfl",)]):
+                for partial in (False, True):
+                    terms = [{"kind": "call", "mid": 2, "opener": "each", "pat": {"matcher": 15, "dbg": 1, "ops": ops}}]
+                    evs = [{"base": ("clone", 0)}, {"base": ("call", 1, 2, 3)}, {"base": ("call", 0, 2, 2)}, {"base": ("call", 0, 2, 6)},
+                           {"base": ("drop", 1)}, {"base": ("drop", 0)}]
+                    out.append({"partial": partial, "terms": terms, "events": evs})
+            return out
+        dn, dpayload = DP.run_part("C05", "deleg05", arms_of_m2() + [C15.gen_case(rng) for _ in range(40 if tier == "quick" else 300)], seed,
                                    "correspondence C05 (receiver part): the CallDefaultImpl arm of the generated impls for every receiver kind vs the model")
         cov["receiver_part"] = {"evaluations": dn, "rule": "C15 generator (trait D: &self, &mut self, self, Rc / Arc sole or shared, Pin; original and clones)"}
         cov["obligations"] += 1
